@@ -59,6 +59,22 @@ pub fn detect(toks: &[&str]) -> String {
         Some(f) => format!("{f:?}"),
         None => return "hang".to_string(),
     };
+    // the probe must not depend on how much the reader hands out at once: tiny buffers over the same file
+    for cap in [1usize, 2, 7, 16, 64] {
+        let p3 = path.clone();
+        let r = with_watchdog(move || {
+            let mut rd = std::io::BufReader::with_capacity(cap, std::fs::File::open(&p3).unwrap());
+            wellen::verif::viewers::detect_file_format(&mut rd)
+        });
+        match r {
+            None => return "hang".to_string(),
+            Some(f) => {
+                if format!("{f:?}") != by_path {
+                    return format!("DIFFBUF:cap={cap}:{f:?}!={by_path}");
+                }
+            }
+        }
+    }
     if by_path != "Unknown" {
         // what happens when a file of a recognised format is opened is not detection's business
         // (C14 and the loaders' own checks cover it; broken FST/GHW content may crash the dependency)
